@@ -18,7 +18,7 @@ func H_C05_ids() {
 	rm := NewRpcMultiplexer(conn)
 	c := vfUint64("counter")
 	vfAssume(c < 0xfffffffffffffff0)
-	rm.streamCounter = c
+	vfFieldSetUint(rm, "streamCounter", c)
 	id1, _, teardown, err := rm.NewStreamReadWriter(context.Background())
 	vfAssert(err == nil, "stream-allocates")
 	go func() {
@@ -36,7 +36,7 @@ func H_C05_ids() {
 		vfAssert(seen, "unary-request-written")
 		vfAssert(id1 > c && id2 > c, "ids-above-the-previous-counter")
 		vfAssert(id1 != id2, "ids-pairwise-distinct")
-		vfAssert(rm.streamCounter >= c+2, "counter-monotone")
+		vfAssert(vfFieldGetUint(rm, "streamCounter") >= c+2, "counter-monotone")
 		teardown()
 		vfReach("checked")
 	})
@@ -47,6 +47,7 @@ func H_C05_concurrent_ids() {
 	n := vfParam("n", 2)
 	conn := newZZConn()
 	rm := NewRpcMultiplexer(conn)
+	streams := vfParam("streams", 0) // additionally: this many concurrently opened streams
 	for i := 0; i < n; i++ {
 		go func() {
 			ctx, cancel := context.WithCancel(context.Background())
@@ -54,6 +55,16 @@ func H_C05_concurrent_ids() {
 			rm.CallUnaryMethod(ctx, zzHdr(), &goatorepo.Body{Data: []byte{1}}, nil)
 		}()
 	}
+	for i := 0; i < streams; i++ {
+		go func() {
+			id, rw, teardown, err := rm.NewStreamReadWriter(context.Background())
+			if err == nil {
+				rw.Write(context.Background(), &goatorepo.Rpc{Id: id, Header: zzHdr()})
+				teardown()
+			}
+		}()
+	}
+	n += streams
 	vfAtQuiescence(func() {
 		w := conn.out
 		vfAssert(len(w) == n, "every-caller-wrote-its-request")
@@ -76,7 +87,7 @@ func H_C05_dispatch() {
 	vfAssume(a != b)
 	cha := make(chan *goatorepo.Rpc, 1)
 	chb := make(chan *goatorepo.Rpc, 1)
-	rm.streamCounter = 0xffffffff
+	vfFieldSetUint(rm, "streamCounter", 0xffffffff)
 	rm.mutex.Lock()
 	rm.handlers[a] = &respHandler{ch: cha, abandoned: make(chan struct{})}
 	rm.handlers[b] = &respHandler{ch: chb, abandoned: make(chan struct{})}
